@@ -43,7 +43,7 @@ pub struct Case {
 }
 
 fn strategy() -> impl Strategy<Value = Case> {
-	let cfg = GenCfg { ns_min: 2, ns_max: 2, p_missing: 10, style: TargetStyle::Simple, param_src_names: false, max_classes: 5, p_nested: 45, ..GenCfg::default() };
+	let cfg = GenCfg { ns_min: 2, ns_max: 2, p_missing: 10, style: TargetStyle::Simple, param_src_names: false, max_classes: 5, p_nested: 45, backslash_docs: true, ..GenCfg::default() };
 	let node = (proptest::collection::vec(any::<u16>(), 1..3), prop_oneof![2 => Just(false), 1 => Just(true)], draws(), prop_oneof![1 => Just(0u8), 3 => 1u8..=9]).prop_map(|(parents, split_name, edits, style)| Node { parents, split_name, edits, style });
 	let roots = prop_oneof![3 => mapset(GenCfg { p_missing: 0, ..cfg.clone() }), 2 => mapset(cfg)];
 	(roots, proptest::collection::vec(node, 1..8), proptest::collection::vec(any::<u16>(), 24), proptest::collection::vec(any::<u16>(), 24), prop_oneof![5 => Just(0u8), 1 => 1u8..7, 1 => Just(4u8)], proptest::collection::vec(any::<(u16, u16)>(), 0..4), any::<u8>()).prop_map(|(mut root, nodes, order1, order2, malformed, extra, variant)| {
